@@ -74,8 +74,15 @@ func (st *State) pickNext(kind string) {
 		ev := SchedEvent{Thread: from, To: st.cur.id, Kind: kind, ToName: st.cur.label}
 		if prev != nil {
 			ev.FromName = prev.label
+			if prev.yielding {
+				// control leaves at an explicit yield of the harness: the native replay hands over at the same call
+				ev.Pos, ev.Nth = "yield", prev.yields
+			}
 		}
 		st.sched = append(st.sched, ev)
+	}
+	if prev != nil {
+		prev.yielding = false
 	}
 	st.cur.sleeping = false
 	if st.cur.status == thBlocked {
